@@ -416,7 +416,15 @@ Verdict historyWith(Ctx& c, bool contextEdits) {
         if (contextEdits && !g.G.funcs.empty() && c.chance(2, 3)) {  // a call, often under card(): the value class of the body matters
           g.scope.clear(); g.everUsed.clear();
           const auto& f = c.oneof(g.G.funcs);
-          tree = g.makeCall(f, {}, c.ipick(1, 2));
+          // arguments of property class (power sets) make the value audit descend into the body of the function
+          std::map<std::string, Ty> inst;
+          for (const char* r : {"R1", "R2"}) inst[r] = c.coin() ? Ty::Set(g.randType(1)) : g.randType(1);
+          std::vector<EP> ks{mkName(f.result.k == Ty::LOGIC ? TID::ID_PREDICATE : TID::ID_FUNCTION, f.name)};
+          for (auto& a : f.args) {
+            const Ty t = a.second.subst(inst);
+            ks.push_back(t.isSet() && t.elem().isSet() && c.chance(2, 3) ? mk(TID::BOOLEAN, {g.genTerm(t.elem(), 1)}) : g.genTerm(t, 1));
+          }
+          tree = mk(TID::NT_FUNC_CALL, ks);
           if (f.result.isSet() && c.coin()) tree = mk(TID::GREATER_OR_EQ, {mk(TID::CARD, {tree}), mkInt(0)});
         } else tree = genPlain(g, c);
         break;
